@@ -525,6 +525,8 @@ func sinkModel(pkg string) *tModel {
 	for _, spec := range [][3]string{{"enum", kEnum, en.Full}, {"sparse", kEnum, sparse.Full}, {"leaf", kObject, leaf.Full}, {"choice", kOneof, choice.Full}, {"scalar_choice", kOneof, wrapScalar.Full}, {"typed_choice", kOneof, typed.Full}} {
 		sink.Fields = append(sink.Fields, g.field("s_"+spec[0], spec[1], spec[2], ""), g.field("o_"+spec[0], spec[1], spec[2], "optional"), g.field("r_"+spec[0], spec[1], spec[2], "repeated"), g.field("m_"+spec[0], spec[1], spec[2], "map"))
 	}
+	// the type that Flat flattens, first as an ordinary nested object
+	sink.Fields = append(sink.Fields, g.field("plain_inner", kObject, flatInner.Full, ""))
 	fl := g.field("flat", kObject, flat.Full, "")
 	fl.Flatten = true
 	sink.Fields = append(sink.Fields, fl)
